@@ -10,6 +10,22 @@ COMMON_ASSUMPTIONS = [
 ]
 
 PROPS = {
+    "C12": {
+        "engines": [{"name": "varstore"}],
+        "level": "exploration",
+        "technique": "seeded write/read histories on the real testfs store inside a synctest bubble, step-by-step register reference model plus porcupine over the recorded history; worker process as crash observer",
+        "design_ref": "DESIGN.md section 3 (C12)",
+        "level_text": ("Register semantics is a property of histories; the engine samples histories of 2-30 plain and signed writes and reads over 2-5 variables with a small "
+                       "per-run value universe (values grow, shrink to empty and repeat), from empty and pre-populated stores, and compares every read with a per-variable "
+                       "register model; the recorded history is re-checked by porcupine. Exploration: histories are sampled, not enumerated."),
+        "level_note": "Trusted: the register model (a map), refesl value builders, porcupine v1.3.0. APPEND_WRITE is not used (the statement is about plain and signed writes). Reads of never-written variables are not judged.",
+        "rule": ("Per run: 1-3 of PK/KEK/db/dbx, optionally an ordinary predefined variable and a generated one; values from a small universe (hash databases of 0-9 entries, "
+                 "certificate databases, raw bytes of 0-400 bytes); ops WriteVar / WriteSignedUpdate / GetVar / GetVarWithAttributes / typed Get*. Non-trivial: a read of a "
+                 "variable that has been written at least twice. Distinct = distinct event-log hash."),
+        "exhaustive": lambda tier: False,
+        "components": {"real": REAL + "; efivarfs/testfs as shipped (its own afero.MemMapFs)", "stub": "synctest fake clock (signing time, descriptor time), harness Marshallable/Unmarshallable, supervised worker process"},
+        "assumptions": COMMON_ASSUMPTIONS,
+    },
     "C11": {
         "engines": [{"name": "fstrace"}],
         "level": "exploration",
@@ -79,7 +95,6 @@ NOT_APPLICABLE = {
     "C08": "accept/reject of a byte string by the decoder is pure; the decoder reads its io.Reader once, front to back, so EOF at instant k is exactly input of length k and a fault schedule degenerates to input mutation",
     "C09": "claimed in DESIGN.md (engine dbhist); check not built yet",
     "C10": "descriptor/WIN_CERTIFICATE round-trip and consumed-length accounting are pure codec properties",
-    "C12": "claimed in DESIGN.md (engine varstore); check not built yet",
     "C13": "for every byte string ... never crash is input-space robustness (fuzzing); dressing mutation in fault vocabulary would not change what is decided",
     "C14": "as C13, and its second half is a static inventory of termination call sites (program analysis)",
     "C16": "depends on the option matrix of third-party producers at build time, not on any runtime behaviour of an environment",
